@@ -1206,4 +1206,72 @@ theorem nameLoop_ok (y : By) (q : List Nat) (lower upper : Nat) (x : Export)
   | case10 lower upper hne hlt i hi hc => cases h
   | case11 lower upper hne hlt i hi => cases h
 
+/-! ### the four cases of an address-table entry, the errors of an ordinal -/
+
+theorem index_cases (y : By) (i : Nat) :
+    (y.fns.cnt ≤ i → y.index i = .err .bounds) ∧
+    (i < y.fns.cnt → y.fnAt i = 0 → y.index i = .err .null) ∧
+    (i < y.fns.cnt → y.fnAt i ≠ 0 → (y.exp.ddVA ≤ y.fnAt i ∧ y.fnAt i < y.exp.ddVA + y.exp.ddSize) →
+      y.index i = (y.exp.v.dervaCStr (.rva (y.fnAt i))).bind fun c => .ok (.forward c)) ∧
+    (i < y.fns.cnt → y.fnAt i ≠ 0 → ¬ (y.exp.ddVA ≤ y.fnAt i ∧ y.fnAt i < y.exp.ddVA + y.exp.ddSize) →
+      y.index i = .ok (.symbol ⟨y.fns.off + 4 * i, 4, 4⟩)) := by
+  have hs : ∀ hi : i < y.fns.cnt, y.index i =
+      (if y.fnAt i = 0 then .err .null
+       else if y.exp.isForwarded (y.fnAt i) = true then
+         (y.exp.v.dervaCStr (.rva (y.fnAt i))).bind fun c => .ok (.forward c)
+       else .ok (.symbol ⟨y.fns.off + 4 * i, 4, 4⟩)) := by
+    intro hi
+    unfold By.index
+    rw [if_pos hi]
+    rfl
+  refine ⟨?_, ?_, ?_, ?_⟩
+  · intro hi
+    unfold By.index
+    rw [if_neg (by omega)]
+  · intro hi h0
+    rw [hs hi, if_pos h0]
+  · intro hi h0 hin
+    rw [hs hi, if_neg h0, if_pos ((isForwarded_iff y _).2 hin)]
+  · intro hi h0 hin
+    rw [hs hi, if_neg h0, if_neg (fun h => hin ((isForwarded_iff y _).1 h))]
+
+theorem index_err (y : By) (i : Nat) (er : Err) (h : y.index i = .err er) :
+    er = .bounds ∨ er = .null ∨ (i < y.fns.cnt ∧ y.exp.v.dervaCStr (.rva (y.fnAt i)) = .err er) := by
+  obtain ⟨h1, h2, h3, h4⟩ := index_cases y i
+  by_cases hi : i < y.fns.cnt
+  · by_cases h0 : y.fnAt i = 0
+    · rw [h2 hi h0] at h; cases h; exact .inr (.inl rfl)
+    · by_cases hin : y.exp.ddVA ≤ y.fnAt i ∧ y.fnAt i < y.exp.ddVA + y.exp.ddSize
+      · rw [h3 hi h0 hin] at h
+        cases hc : y.exp.v.dervaCStr (.rva (y.fnAt i)) with
+        | err e' => rw [hc] at h; cases h; exact .inr (.inr ⟨hi, rfl⟩)
+        | _ => rw [hc] at h; cases h
+      · rw [h4 hi h0 hin] at h; cases h
+  · rw [h1 (by omega)] at h; cases h; exact .inl rfl
+
+theorem ordinal_errors (y : By) (o : Nat) :
+    (o < y.exp.base → y.ordinal o = .err .bounds) ∧
+    (y.exp.base ≤ o → y.fns.cnt ≤ o - y.exp.base → y.ordinal o = .err .bounds) ∧
+    (y.exp.base ≤ o → o - y.exp.base < y.fns.cnt → y.fnAt (o - y.exp.base) = 0 → y.ordinal o = .err .null) ∧
+    (∀ er, y.ordinal o = .err er → er = .bounds ∨ er = .null ∨
+      (o - y.exp.base < y.fns.cnt ∧ y.exp.v.dervaCStr (.rva (y.fnAt (o - y.exp.base))) = .err er)) := by
+  obtain ⟨h1, h2, _, _⟩ := index_cases y (o - y.exp.base)
+  refine ⟨?_, ?_, ?_, ?_⟩
+  · intro hb
+    unfold By.ordinal
+    rw [if_pos hb]
+  · intro hb hi
+    unfold By.ordinal
+    rw [if_neg (by omega)]
+    exact h1 hi
+  · intro hb hi h0
+    unfold By.ordinal
+    rw [if_neg (by omega)]
+    exact h2 hi h0
+  · intro er h
+    unfold By.ordinal at h
+    split at h
+    · cases h; exact .inl rfl
+    · exact index_err y _ er h
+
 end Pelite.Exports
